@@ -339,3 +339,5 @@ def run(ctx, rep):
     r04a(ctx, rep, cr)
     r04b(ctx, rep, cr)
     r04c(ctx, rep, cr)
+    import c09
+    c09.r09f(ctx, rep, cr)   # index maintenance order: an index must keep answering what a scan answers
